@@ -28,7 +28,22 @@ structure Held where
 
 def emptyAVal : AVal := { nonce := 0, sroot := [] }
 
+/-- The mirror: the definitions the theorems of `Props/C12` are stated over (`runB`, `survivorsAux`,
+`Spec.run`, `runPlain`, `commitBlock`), run on the same session, one `BOp` at a time, from the last
+`Update`/`Commit`/reopen (`base`). After every operation the driver compares the mirror with its own
+state (which it computes with the transcribed functions, and which the harness compares with the real
+code); a disagreement is printed into the answer line. -/
+structure Mirror where
+  base : SDB := SDB.new []
+  st : Option (SDB × List BlockSnap) := some (SDB.new [], [])   -- `runB` state; none: runB refused
+  sv : List SDB.Op × List Nat := ([], [])                        -- `survivorsAux` state
+  sp : Spec × List Spec := (⟨[], []⟩, [])                        -- `Spec.run` state
+  ids : List Nat := []                                           -- session-wide numbers of the live snapshots
+  plain : Bool := true                                           -- no contract-level rollback in this segment
+  hist : List POp := []                                          -- the block so far, raw writes included
+
 structure Sess where
+  mir : Mirror := {}
   na : Nat := 0
   nk : Nat := 0
   db : SDB := SDB.new []
@@ -119,8 +134,51 @@ def withHandle (s : Sess) (c : Nat) (f : Storage → Option Storage) : Option Se
 def dropHeld (s : Sess) : Sess :=
   { s with held := [], handles := s.handles.map fun p => (p.1, { p.2 with bound := false }) }
 
+/-- the abstraction of a state over the session's universe: what every account and every key of every
+staged storage reads as -/
+def absOf (s : SDB) (na nk : Nat) : Spec :=
+  { acct := (List.range na).filterMap fun a => (s.view a).map fun v => (a, v)
+    staged := s.cache.map fun p => (p.1, (List.range nk).filterMap fun k => (p.2.view k).map fun v => (k, v)) }
+
+def Mirror.reset (db : SDB) (na nk : Nat) : Mirror :=
+  { base := db, st := some (db, []), sp := (absOf db na nk, []) }
+
+/-- one step of every mirrored definition -/
+def Mirror.step (m : Mirror) (o : BOp) : Mirror :=
+  { m with
+    st := m.st.bind fun st => runB st [o]
+    sv := survivorsAux m.sv [o]
+    sp := Spec.run m.sp [o]
+    plain := m.plain && o.plain
+    hist := m.hist ++ [.db o] }
+
+def mop (s : Sess) (o : BOp) : Sess := { s with mir := s.mir.step o }
+
+/-- does the mirror agree with the driver's state? "" = yes -/
+def mirrorCheck (s : Sess) : String :=
+  match s.mir.st with
+  | none => " RUNB-REFUSED"
+  | some (db, sn) =>
+    if db ≠ s.db then " RUNB-DIVERGES"
+    else if sn.length ≠ s.mir.ids.length then " RUNB-STACK-DIVERGES"
+    else if !s.mir.plain then ""
+    else
+      let σ := s.mir.sp.1
+      let okA := (List.range s.na).all fun a => s.db.getState a == .found (σ.acct.get a)
+      let okS := s.db.cache.all fun p =>
+        match σ.staged.get p.1 with
+        | some m => (List.range s.nk).all fun k => p.2.getData k == .found (m.get k)
+        | none => false
+      let okC := σ.staged.all fun p => (s.db.cache.get p.1).isSome
+      if okA && okS && okC then "" else " SPEC-DIVERGES"
+
+def isAlias (s : Sess) (c : Nat) : Bool :=
+  match s.handles.get c with
+  | some ⟨.alias, _⟩ => true
+  | _ => false
+
 def answer (s : Sess) (head : String) : Sess × String :=
-  if s.undef then (s, "undef") else (s, s!"{head} | {readsLine s}")
+  if s.undef then (s, "undef") else (s, s!"{head}{mirrorCheck s} | {readsLine s}")
 
 def orUndef (s : Sess) (r : Option Sess) (head : String) : Sess × String :=
   match r with
@@ -131,7 +189,7 @@ def c12Step (s : Sess) (line : String) : Sess × String :=
   match words line with
   | ["new", na, nk] =>
     match na.toNat?, nk.toNat? with
-    | some na, some nk => answer { na := na, nk := nk } "ok"
+    | some na, some nk => answer { na := na, nk := nk, mir := Mirror.reset (SDB.new []) na nk } "ok"
     | _, _ => (s, "bad-op")
   | op :: args =>
     if s.undef then (s, "undef") else
@@ -142,7 +200,7 @@ def c12Step (s : Sess) (line : String) : Sess × String :=
         let v : AVal := match ov with
           | some v => { v with nonce := n }
           | none => { nonce := n, sroot := [] }
-        answer { s with db := s.db.putState a v } "ok"
+        answer (mop { s with db := s.db.putState a v } (.op (.putState a v))) "ok"
       | _ => (s, "panic")
     | "aget", [some a] =>
       if a < s.na then
@@ -172,13 +230,15 @@ def c12Step (s : Sess) (line : String) : Sess × String :=
     | "aput", [some a] =>
       match s.held.get a with
       | some h => if h.sealed then (s, "bad-op") else
-        answer { s with db := s.db.putState a h.new, held := s.held.set a { h with sealed := true } } "ok"
+        answer (mop { s with db := s.db.putState a h.new, held := s.held.set a { h with sealed := true } }
+          (.op (.putState a h.new))) "ok"
       | none => (s, "bad-op")
     | "code", [some c, some t] =>
       match s.handles.get c, s.held.get c with
       | some hd, some h =>
         if hd.bound && !h.sealed then
-          let s' := { s with held := s.held.set c { h with new := { h.new with code := t } }, raws := insertSorted t s.raws }
+          let s' := { s with held := s.held.set c { h with new := { h.new with code := t } }, raws := insertSorted t s.raws,
+                             mir := { s.mir with hist := s.mir.hist ++ [.raw t] } }
           answer s' (showRaw s')
         else (s, "bad-op")
       | _, _ => (s, "bad-op")
@@ -203,14 +263,17 @@ def c12Step (s : Sess) (line : String) : Sess × String :=
       match s.handles.get c with
       | none => (s, "bad-op")
       | some ⟨.alias, _⟩ => answer { s with handles := s.handles.erase c } "ok"
-      | some ⟨.priv st, _⟩ => answer { s with db := s.db.stage c st, handles := s.handles.erase c } "ok"
+      | some ⟨.priv st, _⟩ =>
+        -- as a block-level operation: a storage created on `st.trie`, written with the surviving entries of the handle
+        answer (mop { s with db := s.db.stage c st, handles := s.handles.erase c }
+          (.op (.stageNew c st.trie st.buf.entries))) "ok"
     | "set", [some c, some k, some v] =>
       match withHandle s c (fun st => some (st.setData k v)) with
-      | some s' => answer s' "ok"
+      | some s' => answer (if isAlias s c then mop s' (.op (.setData c k (v+1))) else s') "ok"
       | none => (s, "bad-op")
     | "del", [some c, some k] =>
       match withHandle s c (fun st => some (st.deleteData k)) with
-      | some s' => answer s' "ok"
+      | some s' => answer (if isAlias s c then mop s' (.op (.deleteData c k)) else s') "ok"
       | none => (s, "bad-op")
     | "csnap", [some c] =>
       match storageOf s c, s.handles.get c with
@@ -218,27 +281,47 @@ def c12Step (s : Sess) (line : String) : Sess × String :=
       | _, _ => (s, "bad-op")
     | "croll", [some c, some r] =>
       match withHandle s c (fun st => (st.buf.rollback r).map fun b => { st with buf := b }) with
-      | some s' => answer s' "ok"
+      | some s' =>
+        if isAlias s c then
+          -- block snapshots that recorded a later revision of this storage are invalidated by the caller
+          let n := match s.mir.st with
+            | some (_, sn) => (sn.takeWhile fun b => revOK b.storage c r).length
+            | none => 0
+          let s1 := mop s' (.keep n)
+          let s2 := { s1 with mir := { s1.mir with ids := s1.mir.ids.take n } }
+          answer (mop s2 (.op (.storageRollback c r))) "ok"
+        else answer s' "ok"
       | none => (s, "bad-op")
     | "snap", [] =>
       let sn := s.db.blockSnapshot
-      answer { s with snaps := s.snaps ++ [sn] } (showSnap sn)
+      let s1 := mop { s with snaps := s.snaps ++ [sn] } .snap
+      answer { s1 with mir := { s1.mir with ids := s1.mir.ids ++ [s.snaps.length] } } (showSnap sn)
     | "roll", [some i] =>
       match s.snaps[i]? with
       | none => (s, "bad-op")
-      | some sn => orUndef s ((s.db.blockRollback sn).map fun db => { s with db := db, handles := [], held := [] }) "ok"
+      | some sn =>
+        let j := s.mir.ids.takeWhile (· ≠ i) |>.length
+        let s1 := mop s (.rollbackTo j)
+        let s2 := { s1 with mir := { s1.mir with ids := s1.mir.ids.take (j + 1) } }
+        orUndef s ((s.db.blockRollback sn).map fun db => { s2 with db := db, handles := [], held := [] }) "ok"
     | "update", [] =>
-      orUndef s (s.db.update.map fun db => { (dropHeld s) with db := db }) "ok"
+      -- the block so far IS its surviving operations (`reverted_never_happened`)
+      let chk := if s.mir.st.isSome && runPlain s.mir.base s.mir.sv.1 != some s.db then " SURVIVORS-DIVERGE" else ""
+      orUndef s (s.db.update.map fun db => { (dropHeld s) with db := db, mir := Mirror.reset db s.na s.nk }) s!"ok{chk}"
     | "commit", [] =>
-      orUndef s ((s.db.update.bind SDB.commit).map fun db =>
-        { (dropHeld s) with db := db, committed := s.committed ++ [db.trie] }) (showRaw s)
+      -- `commitBlock` on the block and on its surviving operations (`persisted_ignores_reverted`)
+      let r := s.db.update.bind SDB.commit
+      let chk := if s.mir.st.isSome && ((commitBlock s.mir.base s.mir.hist).map (·.1) != r ||
+          (commitBlock s.mir.base (survivorsP s.mir.hist)).map (·.1) != r) then " COMMITBLOCK-DIVERGES" else ""
+      orUndef s (r.map fun db =>
+        { (dropHeld s) with db := db, committed := s.committed ++ [db.trie], mir := Mirror.reset db s.na s.nk }) s!"{showRaw s}{chk}"
     | "commit0", [] =>
       orUndef s (s.db.commit.map fun db =>
-        { (dropHeld s) with db := db, committed := s.committed ++ [db.trie] }) (showRaw s)
+        { (dropHeld s) with db := db, committed := s.committed ++ [db.trie], mir := Mirror.reset db s.na s.nk }) (showRaw s)
     | "reopen", [some i] =>
       match s.committed[i]? with
       | none => (s, "bad-op")
-      | some t => answer { s with db := SDB.new t, handles := [], held := [] } "ok"
+      | some t => answer { s with db := SDB.new t, handles := [], held := [], mir := Mirror.reset (SDB.new t) s.na s.nk } "ok"
     | _, _ => (s, "bad-op")
   | [] => (s, "bad-op")
 
